@@ -3,7 +3,7 @@ Theorems: coq/theories/Properties_C03.v. Tie: K3 byte-exact written image at eve
 import vlib, k3check
 
 OPTS = [{'write_buffer': 65536, 'reuse_logs': 0}, {'write_buffer': 65536, 'reuse_logs': 0, 'paranoid': 1},
-        {'write_buffer': 262144, 'reuse_logs': 0, 'compression': 1}, {'write_buffer': 65536, 'reuse_logs': 1}]
+        {'write_buffer': 262144, 'reuse_logs': 0, 'compression': 1}, {'write_buffer': 65536, 'reuse_logs': 1}, {'write_buffer': 65536, 'reuse_logs': 1, 'paranoid': 1}]
 
 def known_sig(r, p):
     if r['opts'].get('reuse_logs') == 1 and p['kind'] in ('followup-contents', 'reopen-after-recovery-failed', 'contract', 'open-failed'):
